@@ -88,3 +88,98 @@ def spec_decode(buf, C, shape_zyx, block_xyz, itemsize):
                                     v = z3.If(idx == j, table[j], v)
                                 out[c][zz][yy][xx] = z3.simplify(v)
     return out, conds
+
+
+# ----------------------------------------------------------------------------- symbolic-header version
+
+def spec_decode_sym(ctx, buf, C, shape_zyx, block_xyz, itemsize):
+    """The same format text, for buffers whose header words are symbolic too: offsets and bit widths are
+    resolved by solver-driven case split.  A file is accepted (conservative notion of *valid*) when every
+    table / value range it references lies inside the file, the block-header arrays of the channels overlap
+    neither each other nor the channel table, and every voxel of every block (padding included) indexes an
+    existing table entry.  Returns decoded[c][z][y][x] (z3 terms); raises SpecError otherwise."""
+    from ..values import SInt, W
+    L = len(buf)
+    Z, Y, X = shape_zyx
+    bx, by, bz = block_xyz
+    gx, gy, gz = -(-X // bx), -(-Y // by), -(-Z // bz)
+    nblocks = gx * gy * gz
+    nvox = bx * by * bz
+
+    def word(off):
+        if off < 0 or off + 4 > L:
+            raise SpecError("header word outside the file")
+        w = buf.word(off, 4)
+        if isinstance(w, builtins.int):
+            return w
+        return SInt(z3.ZeroExt(W - 32, w), "bv", 32)
+
+    def conc(v, hi):
+        """concrete value of a symbolic quantity known to lie in [0, hi]; SpecError if it can be larger"""
+        if isinstance(v, builtins.int):
+            if v > hi:
+                raise SpecError("offset beyond the file")
+            return v
+        if ctx.decide((v > hi).e):
+            raise SpecError("offset beyond the file")
+        return v.__index__()
+
+    def term(off, n):
+        w = buf.word(off, n)
+        return z3.BitVecVal(w, 8 * n) if isinstance(w, builtins.int) else w
+    if L < 4 * C:
+        raise SpecError("file shorter than the channel table")
+    out = [[[[None] * X for _ in range(Y)] for _ in range(Z)] for _ in range(C)]
+    hdr_ranges = [(0, 4 * C)]
+    for c in range(C):
+        ch = conc(word(4 * c) * 4, L)
+        if ch + 8 * nblocks > L:
+            raise SpecError("block headers outside the file")
+        # conservative validity: the block-header arrays neither overlap each other nor the channel table
+        for a, b in hdr_ranges:
+            if ch < b and a < ch + 8 * nblocks:
+                raise SpecError("channel headers overlap")
+        hdr_ranges.append((ch, ch + 8 * nblocks))
+        for z in range(gz):
+            for y in range(gy):
+                for x in range(gx):
+                    h = ch + 8 * (x + gx * (y + gy * z))
+                    w0, w1 = word(h), word(h + 4)
+                    bits = w0 >> 24 if not isinstance(w0, builtins.int) else w0 >> 24
+                    if isinstance(bits, builtins.int):
+                        if bits not in VALID_BITS:
+                            raise SpecError("invalid bit width")
+                    else:
+                        ok = z3.Or([bits.e == b for b in VALID_BITS])
+                        if not ctx.decide(ok):
+                            raise SpecError("invalid bit width")
+                        bits = bits.__index__()
+                    lut = conc((w0 & 0xFFFFFF) * 4 + ch, L)
+                    avail = (L - lut) // itemsize
+                    if avail < 1:
+                        raise SpecError("lookup table outside the file")
+                    nent = min(1 << bits, avail)
+                    table = [term(lut + itemsize * j, itemsize) for j in range(nent)]
+                    if bits:
+                        nwords = -(-nvox * bits // 32)
+                        vals = conc(w1 * 4 + ch, L)
+                        if vals + 4 * nwords > L:
+                            raise SpecError("encoded values outside the file")
+                    for dz in range(bz):
+                        for dy in range(by):
+                            for dx in range(bx):
+                                zz, yy, xx = z * bz + dz, y * by + dy, x * bx + dx
+                                if bits == 0:
+                                    v = table[0]
+                                else:
+                                    off = dx + bx * (dy + by * dz)
+                                    wd = term(vals + 4 * (off * bits // 32), 4)
+                                    idx = z3.LShR(wd, (off * bits) % 32) & ((1 << bits) - 1)
+                                    if nent < (1 << bits) and ctx.decide(z3.UGE(idx, nent)):
+                                        raise SpecError("index beyond the lookup table")
+                                    v = table[nent - 1]
+                                    for j in reversed(range(nent - 1)):
+                                        v = z3.If(idx == j, table[j], v)
+                                if zz < Z and yy < Y and xx < X:
+                                    out[c][zz][yy][xx] = z3.simplify(v)
+    return out
